@@ -286,6 +286,28 @@ def rand_body(rng, depth, maxlen, ids, counter):
     return out
 
 
+def chain_programs(ids=('a',)):
+    """systematic family: a chain of nested def/class scopes (length 1..3), the innermost holding a
+    use / lambda / comprehension of the name, every level (module included) binding the name
+    before the nested scope, after it, or not at all"""
+    x = ids[0]
+    out = []
+    for k in (1, 2, 3):
+        for kinds in itertools.product(('def', 'class'), repeat=k):
+            for leaf in (('use', x), ('lam', x), ('comp', x, 'v')):
+                for binds in itertools.product((0, 1, 2), repeat=k + 1):
+                    def build_level(i):
+                        if i == k:
+                            inner = [leaf]
+                        else:
+                            body = build_level(i + 1)
+                            inner = [('def', 'g%d' % i, [], body)] if kinds[i] == 'def' else [('class', 'K%d' % i, body)]
+                        b = binds[i]
+                        return ([('bind', x)] if b == 1 else []) + inner + ([('bind', x)] if b == 2 else [])
+                    out.append(build_level(0))
+    return out
+
+
 # -------------------------------------------------------- running
 def g_prog(scope):
     parts = []
@@ -386,13 +408,16 @@ def run(ctx):
     ctx.proofs()
     ctx.cov['fingerprints'] = common.fingerprint(FP)
     ctx.cov['rule'] = ('programs of the scope-tree language: exhaustive over 1 identifier, nesting depth<=2, <=2 statements per body '
-                       '(a seed-independent prefix of the enumeration in quick), plus seeded random programs (2 identifiers, depth<=4); '
+                       '(a seed-independent prefix of the enumeration in quick), the systematic family of nested def/class chains of length<=3 with every binding placement, plus seeded random programs (2 identifiers, depth<=4); '
                        'a case = one executed use; non-trivial = the use read a value from a binding in the program; distinct by (program, use)')
     ctx.assumptions += ['flow analysis (if/else/try reachability) is not part of the modelled language',
                         'the pretty-printer from the scope tree to Python text and the position table are harness code']
     progs = list(itertools.islice(enum_bodies(2, 2, ['a']), ctx.n(40000, 400000)))
     ctx.rng.shuffle(progs)
     progs = progs[:ctx.n(1200, 12000)]
+    chains = chain_programs()
+    ctx.rng.shuffle(chains)
+    progs += chains[:ctx.n(700, len(chains))]
     counter = [0]
     for _ in range(ctx.n(500, 6000)):
         progs.append(rand_body(ctx.rng, ctx.rng.randint(1, 4), ctx.rng.randint(2, 5), ['a', 'b'], counter))
